@@ -50,16 +50,41 @@ def _decoder_calls(world):
     """(ClassInfo|None, modname, fn, call) for every call of the top-level
     decoder outside the codec modules."""
     out = []
+    from ..drv import expand_method
+    from ..front import ClassInfo
+    cache = _decoder_calls.__dict__.setdefault("cache", {})
+    if id(world) in cache:
+        return cache[id(world)]
+    expanded = []
+    inlined = {}            # class qname -> names of helpers inlined
     for q, (modname, fn, cls) in world.funcs.items():
         if not (modname.startswith("dali.driver") or
                 fn.name == "retry_decode"):
             continue
+        fx = fn
+        if isinstance(cls, ClassInfo) and modname.startswith("dali.driver"):
+            # helpers extracted from a method are read where they are called
+            try:
+                fx = expand_method(world, cls, fn, aliases="params")
+            except AnalysisError:
+                fx = fn
+            info = getattr(fx, "_norm_info", {})
+            inlined.setdefault(cls.qname, set()).update(
+                x for x in info.get("inlined", []) if not x.startswith("<"))
+        expanded.append((q, modname, fn, fx, cls))
+    for (q, modname, fn, fx, cls) in expanded:
+        if isinstance(cls, ClassInfo) and fn.name in inlined.get(
+                cls.qname, ()) and fn.name.startswith("_"):
+            continue        # analysed inside its callers
+        fn = fx
         for c in call_sites(fn):
             t = unparse(c.func)
             if t in ("command.Command.from_frame", "dali.command.from_frame",
                      "command.from_frame", "from_frame",
                      "dali.command.Command.from_frame"):
                 out.append((cls, modname, fn, c, q))
+    cache.clear()
+    cache[id(world)] = out
     return out
 
 
@@ -257,6 +282,22 @@ def _check_dtmem(run, repo, world):
                 forms_ok = False
         # all paths from the decode node to exit / loop back pass an
         # assignment of dtvar
+        dec_ids = set()
+        for (_c2, _m2, fn_b, c_b, _q2, dt_b) in sites:
+            if fn_b is fn and dt_b == dtvar:
+                for n in cfg.reachable:
+                    if n.ast is not None and n.kind == "stmt" and any(
+                            x is c_b for x in _walk_no_nested(n.ast)):
+                        dec_ids.add(n.id)
+        stray = _assign_without_decode(cfg, dtvar, dec_ids)
+        run.ob("R-DTMEM", "%s#%s-only-after-decode" % (q, dtvar),
+               stray is None,
+               "the device-type memory `%s` is overwritten on a pass of the "
+               "handler that decoded nothing (%s): an EnableDeviceType seen "
+               "just before is forgotten and the command it applies to is "
+               "decoded as an ordinary one" % (
+                   dtvar, path_str(stray[1], 8) if stray else ""),
+               where(mod, stray[0]) if stray else where(mod, c))
         bad = _path_without_assign(cfg, node, dtvar)
         run.ob("R-DTMEM", "%s#%s" % (q, dtvar), bad is None and forms_ok,
                "%s" % ("after decoding under `%s`, the handler can be left "
@@ -267,6 +308,50 @@ def _check_dtmem(run, repo, world):
                where(mod, c),
                sample={"rule": "R-DTMEM", "site": q, "memory": dtvar,
                        "assignment_forms": forms})
+
+
+def _assign_without_decode(cfg, dtvar, decode_ids):
+    """An assignment of the memory that can be reached, within one pass of
+    the handler (from the function entry or a loop head), without passing a
+    decode that used it.  Returns (assignment node, path) or None."""
+    heads = [n for n in cfg.reachable if n.kind == "join" and
+             "loop" in n.info]
+    assigns = [n for n in cfg.reachable if n.kind == "stmt" and isinstance(
+        n.ast, ast.Assign) and any(unparse(t) == dtvar
+                                   for t in n.ast.targets)]
+
+    def reach(start, avoid, stop=()):
+        seen, stack, prev = set(), [start], {}
+        while stack:
+            n = stack.pop()
+            if n.id in seen:
+                continue
+            seen.add(n.id)
+            for (l, m) in n.succ:
+                if m.id in avoid or m.id in stop:
+                    if m.id in stop and m.id not in prev:
+                        prev[m.id] = n
+                    continue
+                if m.id not in prev:
+                    prev[m.id] = n
+                stack.append(m)
+        return seen, prev
+    for a in assigns:
+        # heads of loops that contain the assignment
+        fwd, _ = reach(a, set())
+        inloop = [h for h in heads if h.id in fwd and a.id in reach(
+            h, set())[0]]
+        starts = inloop or None
+        if starts is None:
+            continue       # before / outside the handler loop: initialisation
+        for h in starts:
+            seen, prev = reach(h, set(decode_ids))
+            if a.id in seen and a.id not in decode_ids:
+                path = [a]
+                while path[-1] is not h and path[-1].id in prev:
+                    path.append(prev[path[-1].id])
+                return a, list(reversed(path))
+    return None
 
 
 def _dominating_isinstance(cfg, node, var, world, modname):
@@ -480,15 +565,30 @@ def _check_report(run, repo, world):
                 node = n
         if node is None:
             continue
-        dist = [n for n in cfg2.reachable if n.kind == "stmt" and
-                ".distribute(%s)" % tgt in unparse(n.ast)]
+        # names that come to hold the decoded command (through the return
+        # of an inlined helper, or a plain copy)
+        names = {tgt}
+        changed = True
+        while changed:
+            changed = False
+            for n in cfg2.reachable:
+                if n.kind == "stmt" and isinstance(n.ast, ast.Assign) and \
+                        isinstance(n.ast.value, ast.Name) and \
+                        n.ast.value.id in names and len(
+                            n.ast.targets) == 1 and isinstance(
+                                n.ast.targets[0], ast.Name) and \
+                        n.ast.targets[0].id not in names:
+                    names.add(n.ast.targets[0].id)
+                    changed = True
+        dist = [n for n in cfg2.reachable if n.kind == "stmt" and any(
+            ".distribute(%s)" % t_ in unparse(n.ast) for t_ in names)]
         conf = [n for n in cfg2.reachable if n.kind == "stmt" and
                 "_queue_tx_conf.put_nowait" in unparse(n.ast)]
         kwd = {k.arg: unparse(k.value) for k in c.keywords}
         if "tx" in kwd.get("devicetype", ""):
             continue   # transmit-confirmation decode: goes to the tx queue
         # count distribute on paths from node (normal edge) to exit
-        cnts = _count_on_paths(cfg2, node, {d.id for d in dist})
+        cnts = _count_on_paths(cfg2, node, {d.id for d in dist}, names)
         run.ob("R-REPORT", "%s#distribute-once" % q, cnts == {1},
                "a successfully decoded observed frame reaches distribute() "
                "%s times on some path" % sorted(cnts), where(smod, c))
@@ -506,7 +606,10 @@ def _branch_key(cd, subj):
     return ",".join(parts)
 
 
-def _count_on_paths(cfg, start, ids):
+def _count_on_paths(cfg, start, ids, nonnull=()):
+    """Numbers of nodes of `ids` passed on the normal paths from start to
+    the exit; `nonnull` names hold an object on these paths, so tests of
+    them against None go one way only."""
     out = set()
     seen = set()
     stack = [(m, 0) for (l, m) in start.succ if l != "exc"]
@@ -522,8 +625,21 @@ def _count_on_paths(cfg, start, ids):
             continue
         if n is cfg.raise_exit:
             continue
+        only = None
+        if n.kind == "test" and nonnull:
+            t = n.ast
+            if isinstance(t, ast.Compare) and len(t.ops) == 1 and isinstance(
+                    t.left, ast.Name) and t.left.id in nonnull and \
+                    isinstance(t.comparators[0], ast.Constant) and \
+                    t.comparators[0].value is None:
+                if isinstance(t.ops[0], (ast.Is, ast.Eq)):
+                    only = "F"
+                elif isinstance(t.ops[0], (ast.IsNot, ast.NotEq)):
+                    only = "T"
         for (l, m) in n.succ:
             if l == "exc":
+                continue
+            if only is not None and l in ("T", "F") and l != only:
                 continue
             stack.append((m, c))
     return out
@@ -622,27 +738,59 @@ def _check_feed(run, repo, world):
     apps = [n for n in cfg.reachable if n.kind == "stmt" and n.ast is not
             None and "self._bus_watch_data.append(%s)" % p in unparse(n.ast)]
     run.floor("reports queued for the bus watcher", len(apps), 1)
-    modes = set()
+    # the condition under which a report is queued, as a formula over the
+    # report's mode byte (class constants folded)
+    from .. import pred
+    from ..fold import Folder, UNKNOWN
+    from ..pathcond import path_conds
+    folder = Folder(world)
+
+    def lin(e):
+        if isinstance(e, ast.Constant) and type(e.value) is int:
+            return pred.Lin.const(e.value)
+        if unparse(e) == "%s[0]" % p:
+            return pred.Lin.sym("mode")
+        if isinstance(e, ast.Attribute) and isinstance(
+                e.value, ast.Name) and e.value.id == "self":
+            v = folder.class_attr(c, e.attr)
+            if type(v) is int:
+                return pred.Lin.const(v)
+        return None
+    P = pred.Parser(lin)
+
+    def tree(t):
+        try:
+            return P.tree(t)
+        except pred.Unrecognised:
+            return ("atom", ("p", unparse(t, 200), True))
+    mo = folder.class_attr(c, "_MODE_OBSERVE")
+    mr = folder.class_attr(c, "_MODE_RESPONSE")
+    if type(mo) is not int or type(mr) is not int:
+        raise AnalysisError("tridonic mode constants do not fold")
+
+    def eq(k):
+        return ("and", [("atom", ("le", "mode", "0", -k)),
+                        ("atom", ("le", "0", "mode", k))])
+    want = pred.dnf(("or", [eq(mo), eq(mr)]))
+    got = frozenset()
     bad = None
     for n in apps:
-        for w in W.at(n):
-            for f in w:
-                if f[0] != "cond":
-                    continue
-                if f[1] in ("%s[0] == self._MODE_OBSERVE" % p,
-                            "%s[0] == self._MODE_RESPONSE" % p) and f[2]:
-                    modes.add(f[1].split("._MODE_")[1])
-                elif f[2] and not f[1].startswith("%s[0] ==" % p) and \
-                        ("_outstanding" in f[1] or "seq" in f[1]):
-                    bad = f[1]
-    run.ob("R-FEED", Q + "#all-reports-queued", modes == {"OBSERVE",
-                                                         "RESPONSE"} and
-           bad is None,
-           "reports are queued for the watcher for modes %s%s; every report "
+        d = path_conds(cfg, n, tree, what="R-FEED")
+        for conj in d:
+            for a_ in conj:
+                if a_[0] == "p" and ("_outstanding" in a_[1] or
+                                     "seq" in a_[1]):
+                    bad = a_[1]
+        got = pred.union(got, frozenset(
+            frozenset(a_ for a_ in conj if a_[0] == "le") for conj in d))
+    same = pred.equivalent(got, want)[0]
+    run.ob("R-FEED", Q + "#all-reports-queued", same and bad is None,
+           "reports are queued for the watcher when %s%s; every report "
            "in observe or response mode must be queued - a frame sent by "
            "another master that the gateway reports under a finished "
            "sequence number would otherwise never be reported" % (
-               sorted(modes), (" and only when `%s`" % bad) if bad else ""),
+               pred.show(got) or "never",
+               (" and only when `%s`" % bad) if bad else ""),
            where(mod, fn))
     # framing-error field in _bus_watch: byte 3 of the report's frame field
     from ..drv import expand_method
